@@ -533,9 +533,18 @@ func (db *SingleBucketBackend) ForceDeleteBucket(name string) error {
 		}
 	}
 
-	// Delete the bucket itself
-	if err := db.fs.RemoveAll("."); err != nil {
+	// The bucket itself is the root of the filesystem and cannot be deleted
+	// (see DeleteBucket); removing "." corrupts some afero filesystems (a
+	// later walk of a MemMapFs never terminates). Only what is left inside
+	// it -- the now empty directories -- is removed.
+	entries, err := afero.ReadDir(db.fs, "")
+	if err != nil {
 		return err
+	}
+	for _, entry := range entries {
+		if err := db.fs.RemoveAll(entry.Name()); err != nil {
+			return err
+		}
 	}
 
 	return nil
